@@ -8,10 +8,11 @@ intermediate operations").  `IsRN q r`: `r` maps every rational to a representab
 `evalQ f r nodes outs ins` evaluates a traced program over ℚ with rounding `r`.
 -/
 import FAVerif.Lemmas.EFT
+import FAVerif.Lemmas.EFTSoft
 import FAVerif.Generated.C10
 
 namespace FAVerif.Props.C10
-open FAVerif.IR FAVerif.FPQ FAVerif.FP FAVerif.Spec FAVerif.Gen.C10
+open FAVerif.IR FAVerif.FPQ FAVerif.FP FAVerif.Spec FAVerif.Gen.C10 FAVerif.SoftRound
 
 /-- **2Sum** (`add_2sum(x, y, fast=False)`): s = RN(x+y) and s + t = x + y exactly — every
 precision, every emin, any round-to-nearest, all representable x y, no ordering hypothesis. -/
@@ -145,6 +146,60 @@ theorem fast2sum_fix_generated (q : QFmt) (r : ℚ → ℚ) (hr : IsRN q r) (x y
     exact fast2sum_fix_overflow q r hr _ x y _ _ _ (by decide +kernel) (by decide +kernel) hx hy hxy h
   · rw [c1, c2, f64]
     exact fast2sum_fix_overflow q r hr _ x y _ _ _ (by decide +kernel) (by decide +kernel) hx hy hxy h
+
+/-- **2Sum on bit patterns, end to end.**  For binary16/32/64 (indeed every format with p ≥ 2,
+ew ≥ 2) the program traced from the current `add_2sum`, evaluated in the BIT-EXACT softfloat
+(the model validated against the machine's arithmetic on every run), returns for all finite
+operand patterns x, y — whenever none of its six operations overflows — a pair (s, t) with
+value(s) = RNE(x + y) and value(s) + value(t) = value(x) + value(y) exactly.
+Chain: softfloat add/sub are correctly rounded (`add_correct`, `sub_correct`), `rne` is a
+round-to-nearest (`isRN_rne`), abstract 2Sum theorem (`twosum_exact`). -/
+theorem twosum_bit_exact (lib : Libm) (x y : Nat)
+    (hx : isFiniteBits binary32 x = true) (hy : isFiniteBits binary32 y = true) :
+    let S := FAVerif.FP.add binary32 y x
+    let Z := FAVerif.FP.sub binary32 S x
+    let A := FAVerif.FP.sub binary32 y Z
+    let B := FAVerif.FP.sub binary32 S Z
+    let C := FAVerif.FP.sub binary32 x B
+    let T := FAVerif.FP.add binary32 A C
+    add_2sum_f32.eval lib [x, y] = some [S, T] ∧
+    (isFiniteBits binary32 S = true → isFiniteBits binary32 Z = true → isFiniteBits binary32 A = true →
+     isFiniteBits binary32 B = true → isFiniteBits binary32 C = true → isFiniteBits binary32 T = true →
+     ∃ qx qy qs qt : ℚ, toQ binary32 x = some qx ∧ toQ binary32 y = some qy ∧ toQ binary32 S = some qs ∧
+       toQ binary32 T = some qt ∧ qs = rne (qf binary32 (by decide)) (qx + qy) ∧ qs + qt = qx + qy) := by
+  intro S Z A B C T
+  constructor
+  · simp [Prog.eval, add_2sum_f32, evalNodes, evalNode, S, Z, A, B, C, T, binary32]
+  · exact twosum_bits binary32 ⟨by decide, by decide⟩ x y hx hy
+
+/-- The same for every format at once, on the specification node list the three regenerated
+programs are equal to (`ties_add_2sum`). -/
+theorem twosum_bit_exact_any_format (f : Fmt) (hf : 2 ≤ f.p ∧ 2 ≤ f.ew) (x y : Nat)
+    (hx : isFiniteBits f x = true) (hy : isFiniteBits f y = true) :
+    let S := FAVerif.FP.add f y x
+    let Z := FAVerif.FP.sub f S x
+    let A := FAVerif.FP.sub f y Z
+    let B := FAVerif.FP.sub f S Z
+    let C := FAVerif.FP.sub f x B
+    let T := FAVerif.FP.add f A C
+    isFiniteBits f S = true → isFiniteBits f Z = true → isFiniteBits f A = true →
+    isFiniteBits f B = true → isFiniteBits f C = true → isFiniteBits f T = true →
+    ∃ qx qy qs qt : ℚ, toQ f x = some qx ∧ toQ f y = some qy ∧ toQ f S = some qs ∧ toQ f T = some qt ∧
+      qs = rne (qf f hf.1) (qx + qy) ∧ qs + qt = qx + qy :=
+  twosum_bits f ⟨hf.1, hf.2⟩ x y hx hy
+
+/-- The softfloat primitives are correctly rounded (finite operands, finite result). -/
+theorem soft_ops_correctly_rounded (f : Fmt) (hf : 2 ≤ f.p ∧ 2 ≤ f.ew) (a b : Nat) (s t : Bool) (m n : Nat) (e e' : Int)
+    (ha : decode f a = .fin s m e) (hb : decode f b = .fin t n e') :
+    (isFiniteBits f (FAVerif.FP.add f a b) = true →
+      toQ f (FAVerif.FP.add f a b) = some (rne (qf f hf.1) (valQ s m e + valQ t n e'))) ∧
+    (isFiniteBits f (FAVerif.FP.sub f a b) = true →
+      toQ f (FAVerif.FP.sub f a b) = some (rne (qf f hf.1) (valQ s m e - valQ t n e'))) ∧
+    (isFiniteBits f (FAVerif.FP.mul f a b) = true →
+      toQ f (FAVerif.FP.mul f a b) = some (rne (qf f hf.1) (valQ s m e * valQ t n e'))) ∧
+    IsRN (qf f hf.1) (rne (qf f hf.1)) :=
+  ⟨add_correct f ⟨hf.1, hf.2⟩ a b s t m n e e' ha hb, sub_correct f ⟨hf.1, hf.2⟩ a b s t m n e e' ha hb,
+   mul_correct f ⟨hf.1, hf.2⟩ a b s t m n e e' ha hb, isRN_rne _⟩
 
 /-- Every regenerated program is well formed (arguments refer to earlier nodes, inputs in range). -/
 theorem generated_wf : ∀ p ∈ FAVerif.Gen.C10.all, p.2.wf = true := by decide +kernel
